@@ -241,6 +241,12 @@ def structured_case(ctx, kinds):
     ctx.evaluations += max(n - 1, 0)
 
 
+def malformed_case(ctx, case):
+    p, kind, pos, code = case
+    ctx.state((code,))
+    check_termination(ctx, code, {'family': 'termination malformed programs'})
+
+
 # ---------------------------------------------------------------- round-trip blocks
 def rt_instr(ctx, name):
     from props.c11 import operand_choices, SENT_A, SENT_B
@@ -371,6 +377,8 @@ def blocks(tier, seed):
               'every byte string of length <= 3' if not q else 'every byte string of length <= 2 and length 3 with boundary tails', nshards=256),
         Block('termination_structured_lengths', list(nestings(2 if q else 3)), structured_case,
               'length-operand instructions x declared length x payload x nesting depth <= %d' % (2 if q else 3), nshards=64),
+        Block('termination_malformed_programs', lambda s, n: spaces.malformed(2 if q else 3, 'full', s, n), malformed_case,
+              'every byte-prefix and single-byte perturbation of every control program with <= %d nodes' % (2 if q else 3), nshards=64),
         Block('roundtrip_instructions', plain, rt_instr, 'every instruction x operand boundary values (compiler output)', nshards=len(plain)),
         Block('roundtrip_push_sizes', pv, rt_push, 'pushes on both sides of 2^7, 2^8, 2^15, 2^16, bare and nested', nshards=32),
         Block('roundtrip_nop_codes', list(range(92, 256)), rt_nop, 'every NOP code x every count byte', nshards=32),
